@@ -1221,7 +1221,8 @@ def mixed_trace_records(embs, rng, start_id):
         recs.append(rec)
         rid += 1
 
-    objs = [(None, PoolSum(f(x, i), (i, (1, 2)))), (None, PoolSum(f(x, i) + x, (i, (0, 1, 2)))),
+    gfun = sp.Function("g")
+    objs = [(None, PoolSum(f(x, i), (i, (1, 2)))), (None, PoolSum(gfun(f(x, i), x), (i, (0, 1, 2)))),
             (None, PoolSum(f(i, PoolSum(f(x, i), (i, (1, 2)))), (i, (2, 3))))]
     for c in embs:
         try:
@@ -1233,8 +1234,8 @@ def mixed_trace_records(embs, rng, start_id):
                     objs.append((c, c.build(args, tuple(rng.choice("ab") for _ in range(c.na)), pick_active(c, rng))))
                     if c.name != "PoolSum":
                         body = c.build([x, i][: c.ar] if c.ar == 2 else [i], tuple("a" for _ in range(c.na)), pick_active(c, rng))
-                        if x in body.free_symbols or c.ar == 1:
-                            objs.append((c, PoolSum(body + f(x), (i, (1, 2)))))
+                        # (no Add/Mul around: their argument order is canonicalised by SymPy, the projection is positional)
+                        objs.append((c, PoolSum(gfun(body, x), (i, (1, 2)))))
         except (Exception, OpTimeout):  # noqa: BLE001
             continue
     maps = [({i: sp.Integer(5), x: w}, "xreplace"), ({x: hfun(w), i: w}, "xreplace"), ({i: sp.Integer(5), x: w}, "subs"),
